@@ -28,6 +28,7 @@ type Job struct {
 	Env     []string // appended to os.Environ()
 	Dir     string
 	Timeout time.Duration
+	Stdin   []byte
 	// results
 	Err      error
 	ExitCode int
@@ -46,6 +47,9 @@ func RunJob(j *Job) {
 	var so, se strings.Builder
 	cmd.Stdout = &so
 	cmd.Stderr = &se
+	if j.Stdin != nil {
+		cmd.Stdin = strings.NewReader(string(j.Stdin))
+	}
 	cmd.SysProcAttr = &syscall.SysProcAttr{Setpgid: true, Pdeathsig: syscall.SIGKILL}
 	if err := cmd.Start(); err != nil {
 		j.Err = err
